@@ -432,4 +432,39 @@ def interleave {α} [PNum α] (env : Env) (c : Cond) : List (List (Op α)) → W
     let rs := interleave env c rest { w1 with st := r.2 }
     (r.1 :: rs.1, rs.2)
 
+/-! ### the polled form at thread-step granularity -/
+
+/-- invariant of the code as it is: a requested terminate is visible in `terminate_`, and every
+recorded evaluation made after the request answered true -/
+def PInv (s : PState) : Prop :=
+  (s.req = true → s.term = true) ∧ ∀ p ∈ s.results, p.1 = true → p.2 = true
+
+theorem pinv_step (pred : Nat → Bool) (s : PState) (st : PStep) (h : PInv s) :
+    PInv (s.step .asCoded pred st) := by
+  obtain ⟨h1, h2⟩ := h
+  cases st with
+  | check => simp only [PState.step]; split <;> exact ⟨h1, h2⟩
+  | call => simp only [PState.step]; split <;> exact ⟨h1, h2⟩
+  | store => simp only [PState.step]; split <;> exact ⟨h1, h2⟩
+  | terminate => exact ⟨fun _ => rfl, h2⟩
+  | destroy => exact ⟨h1, h2⟩
+  | eval =>
+    refine ⟨h1, ?_⟩
+    intro p hp hreq
+    simp only [PState.step, List.mem_cons] at hp
+    rcases hp with hp | hp
+    · subst hp
+      simp only [PState.evalNow] at hreq ⊢
+      simp [h1 hreq]
+    · exact h2 p hp hreq
+
+theorem pinv_run (pred : Nat → Bool) (steps : List PStep) : ∀ (s : PState), PInv s →
+    PInv (s.run .asCoded pred steps) := by
+  induction steps with
+  | nil => intro s h; exact h
+  | cons st rest ih =>
+    intro s h
+    simp only [PState.run, List.foldl_cons]
+    exact ih _ (pinv_step pred s st h)
+
 end OmplModel.Ptc
